@@ -49,6 +49,9 @@ fn main() {
             let out = (def.shard)(&ctx, &known);
             std::fs::write(&args[6], serde_json::to_string(&out).unwrap()).expect("write shard result");
         }
+        "worker" => {
+            std::process::exit(jv::worker::main(&args[2..]));
+        }
         "golden-gen" => {
             match jv::golden::generate(std::path::Path::new(&args[2])) {
                 Ok(()) => {}
